@@ -21,7 +21,7 @@ import torch.nn.functional as F
 import z3
 
 from ..par import run_tasks
-from ..report import CONCRETE, CONTROL, INCONCLUSIVE, PROVED, Report, describe_function
+from ..report import CONCRETE, CONTROL, INCONCLUSIVE, PROVED, Report, describe_function, lazy
 from ..sym.scalar import EXP, LOG, Ctx, explore
 from ..sym.tensor import Session, STensor
 from . import funcops as fo
@@ -138,8 +138,30 @@ def cell_task(op: str, approx: str, lo_cell: int, hi_cell: int, timeout: float, 
     torch.set_num_threads(1)
     NCELLS = ncells
     recs: List[Dict[str, Any]] = [{"type": "function", "functions": []}]
-    paths = factors(op, approx)
     edges = [2 ** (-4 + 8 * i / NCELLS) for i in range(NCELLS + 1)]
+    try:
+        paths = factors(op, approx)
+    except RuntimeError as e:
+        # the library's kernel does not unify with the PyTorch function (that identity is C01's claim): no symbolic factor to bound.
+        # The band is then decided on the real code at both ends and the middle of every cell: outside = violation, inside = only sampled.
+        whichs = ["out", "x"] + (["gate"] if op == "silu_glu" else [])
+        for which in whichs:
+            for i in range(lo_cell, hi_cell):
+                a, b = edges[i], edges[i + 1]
+                name = f"{op}[{approx}]/{which}/cell{i}[{a:.5g},{b:.5g}]"
+                worst = None
+                for mm in (a, (a * b) ** 0.5, b):
+                    bad, desc = direct_band(op, approx, which, mm)
+                    if bad:
+                        worst = (mm, desc)
+                        break
+                if worst is not None:
+                    recs.append({"type": "violation", "key": f"C04/{op}[{approx}]/{which}/band", "what": worst[1],
+                                 "replay": {"kind": "direct-band", "op": op, "approx": approx, "which": which, "mult": worst[0]}})
+                else:
+                    recs.append({"type": "obligation", "name": name, "status": INCONCLUSIVE, "secs": 0.0,
+                                 "detail": f"kernel does not unify with the PyTorch function ({str(e)[:160]}); band measured inside at 3 points of the cell only"})
+        return recs
     for pi, p in enumerate(paths):
         c: Ctx = p["ctx"]
         mvar = c.reals["mult"]
@@ -213,6 +235,36 @@ def measured_factor(op: str, approx: str, which: str, m: float) -> float:
     (a,) = torch.autograd.grad(y, t, up, retain_graph=True)
     (b,) = torch.autograd.grad(ref, t, up)
     return fo._ratio_c(a, b)[0]
+
+
+def direct_band(op: str, approx: str, which: str, m: float) -> Tuple[bool, str]:
+    """The property itself, measured on the real function with no reference kernel: output std / input-gradient RMS under N(0,1) inputs and
+    upstream gradients, by a 40001-node Simpson rule on [-12, 12] in float64 (deterministic)."""
+    import unit_scaling.functional as U
+    n = 40001
+    z = torch.linspace(-12.0, 12.0, n, dtype=torch.float64)
+    h = (z[1] - z[0]).item()
+    w = torch.ones(n, dtype=torch.float64)
+    w[1:-1:2], w[2:-1:2] = 4.0, 2.0
+    w = w * h / 3.0 * torch.exp(-0.5 * z * z) / math.sqrt(2 * math.pi)
+    zz = z.clone().requires_grad_(True)
+    if op == "gelu":
+        y = U.gelu(zz, mult=m, constraint=None, approximate=approx)
+    elif op == "silu":
+        y = U.silu(zz, mult=m, constraint=None)
+    else:
+        one = torch.ones(n, dtype=torch.float64, requires_grad=True)
+        y = U.silu_glu(one, zz, mult=m)  # linear in its first operand: with x ~ N(0,1) independent, E[x^2] = 1 factors out
+    (dy,) = torch.autograd.grad(y, zz, torch.ones_like(y))
+    yd = y.detach()
+    if which == "out":
+        v = math.sqrt(float((w * yd * yd).sum())) if op == "silu_glu" else math.sqrt(max(float((w * yd * yd).sum()) - float((w * yd).sum()) ** 2, 0.0))
+        what = "output std"
+    elif which == "x" and op == "silu_glu":
+        v, what = math.sqrt(float((w * yd * yd).sum())), "grad[x] RMS"
+    else:
+        v, what = math.sqrt(float((w * dy * dy).sum())), f"grad[{which}] RMS"
+    return not (LO <= v <= HI), f"{op}(approximate={approx}) mult={m!r}: {what} measured directly on the real function = {v!r} (band [{LO}, {HI}])"
 
 
 def replay_band(op: str, approx: str, which: str, m: float) -> Tuple[bool, str]:
@@ -315,7 +367,7 @@ def run(rep: Report, only: str = "") -> None:
     if only:
         tasks = [t for t in tasks if only in repr(t[1]) or only in t[0].__name__]
     rep.extend(run_tasks(tasks))
-    rep.functions = [describe_function(f) for f in (U.gelu, U.silu, U.silu_glu, U.cross_entropy, ucf.logarithmic_interpolation, ucf.scale_elementwise)]
+    rep.functions = [describe_function(f) for f in (lazy(lambda: U.gelu), lazy(lambda: U.silu), lazy(lambda: U.silu_glu), lazy(lambda: U.cross_entropy), lazy(lambda: ucf.logarithmic_interpolation), lazy(lambda: ucf.scale_elementwise))]
     rep.bounds = {"mult": f"every real mult in [1/16, 16]: {ncells} cells of a log grid, each decided for all mult in the cell",
                   "quantities": "gelu (exact, tanh), silu: output std and input-gradient RMS; silu_glu: output std and both input-gradient RMS",
                   "uniform logits": "vocabulary 2..2^20, batch 1..2^20, mult in (0,4]",
@@ -330,6 +382,8 @@ def run(rep: Report, only: str = "") -> None:
 
 
 def replay(data: Dict[str, Any]) -> Tuple[bool, str]:
+    if data.get("kind") == "direct-band":
+        return direct_band(data["op"], data["approx"], data["which"], float(data["mult"]))
     if data.get("kind") == "band":
         return replay_band(data["op"], data["approx"], data["which"], float(data["mult"]))
     r = task_uniform_ce()
